@@ -84,11 +84,13 @@ func GetKeyFromPassword(passwd string, cname types.PrincipalName, realm string, 
 			if paID > pa.PADataType {
 				continue
 			}
+			paID = pa.PADataType
 			salt = string(pa.PADataValue)
 		case patype.PA_ETYPE_INFO:
 			if paID > pa.PADataType {
 				continue
 			}
+			paID = pa.PADataType
 			var eti types.ETypeInfo
 			err := eti.Unmarshal(pa.PADataValue)
 			if err != nil {
@@ -108,6 +110,7 @@ func GetKeyFromPassword(passwd string, cname types.PrincipalName, realm string, 
 			if paID > pa.PADataType {
 				continue
 			}
+			paID = pa.PADataType
 			var et2 types.ETypeInfo2
 			err := et2.Unmarshal(pa.PADataValue)
 			if err != nil {
